@@ -930,11 +930,11 @@ func (client *client) subscribeHandler(sub *packets.Subscribe) *codes.Error {
 	for k, v := range sub.Topics {
 		sub := subReq.Subscriptions[v.Name].Sub
 		subErr := converError(subReq.Subscriptions[v.Name].Error)
-		var isShared bool
+		// "$share/<group>/<filter>" is installed as a shared subscription whatever the protocol version is
+		isShared := sub.ShareName != ""
 		code := sub.QoS
 		if client.version == packets.Version5 {
-			if sub.ShareName != "" {
-				isShared = true
+			if isShared {
 				if !client.opts.SharedSubAvailable {
 					code = codes.SharedSubNotSupported
 				}
